@@ -8,6 +8,7 @@
   where `closed` runs a statement list as the body of a `func() Seq` literal.
 -/
 import GoCo.Proofs.Pass2Lemmas
+import GoCo.Proofs.SwitchLemmas
 set_option autoImplicit false
 
 namespace GoCo.MG
@@ -554,11 +555,140 @@ theorem denL_cons_nonfall (ρ : Interp σ P) (N : Nat) (susp : Bool) (s : Stmt) 
     denL ρ N susp (.cons s rest) st = .done o st := by
   simp [denL, h, Res.bind, ho]
 
+theorem kOK_switchk {ρ : Interp σ P} {N : Nat} {X : Stmt} :
+    (Kind.switchk = Kind.trivial → TrivOK ρ N X) ∧ (Kind.switchk = Kind.normal → X = .rete (.sig .normal))
+      ∧ Kind.switchk ≠ Kind.delay := by
+  refine ⟨fun hk => ?_, fun hk => ?_, ?_⟩
+  · cases hk
+  · cases hk
+  · simp
+
 /-- closing a source list = closing its head, then the rest -/
 theorem closed_src_cons (ρ : Interp σ P) (N : Nat) (s : Stmt) (rest : Stmts) (hf : fragS s = true) (st : σ) :
     closed (denL ρ N true (.cons s rest) st)
       = seqN (denS ρ N true s st) (fun st' => closed (denL ρ N true rest st')) := by
   rw [denL_cons, closed_thenF (fragS_plain ρ N true s hf st)]
+
+/-- a last statement whose block is closed at once: from the `go` specification to the `stop` one -/
+theorem stop_of_go (ρ : Interp σ P) (N : Nat) (q : Quirks) (cur : Blk) (s : Stmt) (fol fin : Blk)
+    (frs : List Frame) (hfrag : fragS s = true) (hgo : SRok ρ N cur s true (.go fol frs))
+    (hg : genLast q fol = .ok fin) : SRok ρ N cur s true (.stop (plug frs fin)) := by
+  obtain ⟨hfi, hfs, hplug, hsem⟩ := hgo
+  obtain ⟨h1, h2, h3⟩ := genLast_spec (ρ := ρ) (N := N) hg hfi (.inl hfs)
+  have hp := hplug fin h1 h2
+  refine ⟨hp.1, hp.2, fun rest hrest st => ?_⟩
+  have hr : rest = .nil := hrest rfl
+  subst hr
+  rw [hsem fin (fun st' => .done .normal st') (fun st => by rw [h3]; exact (seqN_Kn _).symm) st]
+  congr; funext st'
+  rw [closed_src_cons ρ N s .nil hfrag]
+  rfl
+
+/-- the common end when the init statement was extracted and nothing is combined: push, continue -/
+theorem init_tail (ρ : Interp σ P) (N : Nat) (cur : Blk) (init : Option Simple)
+    (cur1 : Blk) (frames : List Frame) (X s : Stmt) (isLast : Bool) (L : σ → Res Flow σ P)
+    (hinit : InitOK ρ N cur init cur1 frames) (hX : TrivOK ρ N X)
+    (hXs : ∀ st, closed (denS ρ N false X st) = closed (L st))
+    (hs : ∀ st, denS ρ N true s st = (denInit ρ true init st).bind fun _ st1 => L st1) :
+    SRok ρ N cur s isLast (.go (cur1.pushU X .trivial) frames) := by
+  obtain ⟨ho1, hst1, hsem1⟩ := hinit
+  have hop := ho1.pushU hX
+  refine ⟨hop.items, hop.shapeA, hst1, fun fin K' hf st => ?_⟩
+  rw [hsem1 fin (fun st' => seqN (denS ρ N false X st') K') (fun st => by
+    rw [hf, Dblk_pushU, seqN_thenF (ho1.plain st)]) st]
+  congr; funext st'
+  rw [hs, denInit_bind_thenF,
+    seqN_thenF ((denInit_fallOnly ρ true init st').mono fun o (h : o = Flow.fall) => h ▸ plain_fall)]
+  congr; funext st1
+  exact seqN_congr_closed (hXs st1) K'
+
+/-- rewriteSwitchStmt, given what rewriting the clause bodies established -/
+theorem rwSwitch_ok (ρ : Interp σ P) (N : Nat) (q : Quirks) (init : Option Simple) (tag : Option CondE)
+    (cases : Cases) (isLast : Bool) (cur : Blk) (r : SR) (cb bb : Bool)
+    (hfrag : fragS (.switch init tag cases) = true)
+    (hsup : supportedS cb bb (.switch init tag cases) = true) (ho : Open ρ N cur)
+    (ihCases : ∀ cs' t, rwCases q cases = .ok (cs', t) →
+      (∀ i st, closed (denFrom ρ N false cs' i st) = closed (denFrom ρ N true cases i st)) ∧
+      (t = true → ∀ i st, Res.NoY (denFrom ρ N true cases i st)))
+    (h : rwStmt q (.switch init tag cases) isLast cur = .ok r) :
+    SRok ρ N cur (.switch init tag cases) isLast r := by
+  have hfrag' := hfrag
+  simp only [fragS, Bool.and_eq_true] at hfrag
+  have hfc : fragC cases = true := hfrag.2
+  simp only [supportedS] at hsup
+  simp only [rwStmt] at h
+  obtain ⟨x0, hx0, h⟩ := bind_ok h
+  obtain ⟨newCases, allTrivial⟩ := x0
+  obtain ⟨hrel, hnoy⟩ := ihCases newCases allTrivial hx0
+  obtain ⟨hsel, hdef⟩ := rwCases_headers ρ q cases newCases allTrivial hx0
+  simp only at h
+  -- the switch without its init statement
+  let L : σ → Res Flow σ P := fun st1 => denS ρ N true (.switch none tag cases) st1
+  have hs : ∀ st, denS ρ N true (.switch init tag cases) st
+      = (denInit ρ true init st).bind fun _ st1 => L st1 := fun st => denS_switch_init ρ N true init tag cases st
+  have hfrX : fragS (.switch none tag cases) = true := by simp [fragS, optIsDefine, hfc]
+  by_cases hall : (!optIsYield init && allTrivial) = true
+  · -- nothing yields: the statement is kept
+    rw [if_pos hall] at h
+    obtain ⟨c', hc', h⟩ := bind_ok h
+    cases pure_ok h
+    have := push_ok hc'; subst this
+    simp only [Bool.and_eq_true, Bool.not_eq_true'] at hall
+    have ht := trivOK_of_noY ρ N _ hfrag' (switch_noY ρ N init tag cases hall.1 (hnoy hall.2))
+    exact go_trivial ρ N cur _ isLast ho ht.1 (fun st => by rw [ht.2])
+  · rw [if_neg hall] at h
+    obtain ⟨x, hx, h⟩ := bind_ok h
+    have hinit := initOK_of ρ N cur init x ho hx
+    by_cases htag : (tag.isNone && q.taglessYieldSwitchPanics) = true
+    · rw [if_pos htag] at h
+      obtain ⟨_, h1, _⟩ := bind_ok h
+      cases h1
+    · rw [if_neg htag] at h
+      by_cases hat : allTrivial = true
+      · -- only the init statement yields: the switch itself stays an ordinary statement
+        rw [if_pos hat] at h
+        obtain ⟨c', hc', h⟩ := bind_ok h
+        cases pure_ok h
+        have := push_ok hc'; subst this
+        have ht := trivOK_of_noY ρ N (.switch none tag cases) hfrX
+          (switch_noY ρ N none tag cases rfl (hnoy hat))
+        exact init_tail ρ N cur init x.1 x.2 _ _ isLast L hinit ht.1 (fun st => by rw [ht.2]) hs
+      · -- some clause yields
+        rw [if_neg hat] at h
+        obtain ⟨x1, hx1, h⟩ := bind_ok h
+        obtain ⟨cur', hcur', h⟩ := bind_ok h
+        have := push_ok hcur'; subst this
+        -- a yielding switch: no `break` targets it (guard, finding D7)
+        have hyield : (optIsYield init || casesHaveYield cases) = true := by
+          cases hy : (optIsYield init || casesHaveYield cases) with
+          | true => rfl
+          | false =>
+            simp only [Bool.or_eq_false_iff] at hy
+            exact absurd (rwCases_noY q cases hy.2 (newCases, allTrivial) hx0) hat
+        rw [hyield] at hsup
+        have hS : ∀ i st, Res.All (fun o => o ≠ Flow.nbrk) (denFrom ρ N true cases i st) :=
+          suppC_noBrk ρ N true cb cases hsup hfc
+        have hT : ∀ i st, Res.All (fun o => o ≠ Flow.nbrk) (denFrom ρ N false newCases i st) := by
+          intro i st
+          apply noBrk_of_closed
+          rw [hrel i st]
+          exact closed_noBrkSig ((hS i st).and (fragC_src ρ N true cases hfc i st))
+        have hX : ∀ st, closed (denS ρ N false (.switch none tag newCases) st) = closed (L st) :=
+          switch_closed_eq ρ N tag cases newCases hsel hdef hrel hT hS
+        have hgo : ∀ il, SRok ρ N cur (.switch init tag cases) il
+            (.go (x1.1.pushU (.switch none tag newCases) .switchk) (x1.2 ++ x.2)) :=
+          fun il => for_tail ρ N q cur init x.1 x.2 x1 _ _ .switchk il L ho hinit kOK_switchk hX hs hx1
+        by_cases hl : (isLast && !q.switchLastGetsNoNormal) = true
+        · rw [if_pos hl] at h
+          obtain ⟨g, hg, h⟩ := bind_ok h
+          cases pure_ok h
+          have hil : isLast = true := by
+            simp only [Bool.and_eq_true] at hl; exact hl.1
+          subst hil
+          exact stop_of_go ρ N q cur _ _ g _ hfrag' (hgo true) hg
+        · rw [if_neg hl] at h
+          cases pure_ok h
+          exact hgo isLast
 
 mutual
   theorem rwStmts_ok (ρ : Interp σ P) (N : Nat) (q : Quirks) :
@@ -797,10 +927,59 @@ mutual
     | .rete (.loop _ _ _), _, _, _, _, _, hf, _, _, _ => by simp [fragS] at hf
     | .rete (.start _), _, _, _, _, _, hf, _, _, _ => by simp [fragS] at hf
     | .rete (.unknown _), _, _, _, _, _, hf, _, _, _ => by simp [fragS] at hf
-    | .switch _ _ _, _, _, _, _, _, hf, _, _, _ => by simp [fragS] at hf
+    | .switch init tag cases, isLast, cur, r, cb, bb, hf, hs, ho, h => by
+        have hfc : fragC cases = true := by simp only [fragS, Bool.and_eq_true] at hf; exact hf.2
+        have hsc : supportedC cb (optIsYield init || casesHaveYield cases) cases = true := by
+          simpa [supportedS] using hs
+        exact rwSwitch_ok ρ N q init tag cases isLast cur r cb bb hf hs ho
+          (fun cs' t hc => rwCases_ok ρ N q cases cs' t cb _ hfc hsc hc) h
     | .fallthrough, _, _, _, _, _, hf, _, _, _ => by simp [fragS] at hf
     | .ret, _, _, _, _, _, hf, _, _, _ => by simp [fragS] at hf
     | .unknown _, _, _, _, _, _, hf, _, _, _ => by simp [fragS] at hf
+
+  theorem rwCases_ok (ρ : Interp σ P) (N : Nat) (q : Quirks) :
+      ∀ (cs cs' : Cases) (t : Bool) (cb bb : Bool), fragC cs = true → supportedC cb bb cs = true →
+        rwCases q cs = .ok (cs', t) →
+        (∀ i st, closed (denFrom ρ N false cs' i st) = closed (denFrom ρ N true cs i st)) ∧
+        (t = true → ∀ i st, Res.NoY (denFrom ρ N true cs i st))
+    | .nil, cs', t, _, _, _, _, h => by
+        simp only [rwCases] at h
+        cases pure_ok h
+        exact ⟨fun _ _ => rfl, fun _ _ _ => .done⟩
+    | .cons d ks body r, cs', t, cb, bb, hf, hs, h => by
+        simp only [fragC, Bool.and_eq_true] at hf
+        simp only [supportedC, Bool.and_eq_true] at hs
+        simp only [rwCases] at h
+        obtain ⟨b, hb, h⟩ := bind_ok h
+        obtain ⟨x, hx, h⟩ := bind_ok h
+        obtain ⟨r', t'⟩ := x
+        cases pure_ok h
+        obtain ⟨hb1, hb2, hb3⟩ := rwStmts_ok ρ N q body (Blk.mk0 .switchk) b cb bb hf.1 hs.1 (open_mk0 ρ N .switchk) hb
+        have hb3' : ∀ st, closed (denL ρ N false b.toStmts st) = closed (denL ρ N true body st) := fun st => by
+          have := hb3 st
+          rw [Dblk_mk0, seqN_done_fall] at this
+          exact this
+        obtain ⟨ih1, ih2⟩ := rwCases_ok ρ N q r r' t' cb bb hf.2 hs.2 hx
+        -- neither side can end in `nft`: no fallthrough statement in the fragment, none introduced by pass2
+        have hnf : NF b := rwStmts_nf q body (Blk.mk0 .switchk) (fragL_wo body hf.1) (nf_mk0 _) b hb
+        have hTn : ∀ st, Res.All (fun o => o ≠ Flow.nft) (denL ρ N false b.toStmts st) :=
+          woL_noNft ρ N false _ (nf_toStmts hnf)
+        have hSn : ∀ st, Res.All (fun o => o ≠ Flow.nft) (denL ρ N true body st) :=
+          woL_noNft ρ N true _ (fragL_wo body hf.1)
+        refine ⟨fun i st => ?_, fun ht i st => ?_⟩
+        · cases i with
+          | zero =>
+            simp only [denFrom]
+            rw [bind_id_on (hTn st) (fun o st' ho => by simp [ho]), bind_id_on (hSn st) (fun o st' ho => by simp [ho])]
+            exact hb3' st
+          | succ i => simp only [denFrom]; exact ih1 i st
+        · simp only [Bool.and_eq_true] at ht
+          cases i with
+          | zero =>
+            simp only [denFrom]
+            rw [bind_id_on (hSn st) (fun o st' ho => by simp [ho])]
+            exact noY_of_mustNoYield hb1 hb2 ht.1 st (hb3 st ▸ by rw [Dblk_mk0, seqN_done_fall])
+          | succ i => simp only [denFrom]; exact ih2 ht.2 i st
 
   theorem rwElse_ok (ρ : Interp σ P) (N : Nat) (q : Quirks) :
       ∀ (e : Else) (r : Option Blk) (cb bb : Bool), fragE e = true → supportedE cb bb e = true →
@@ -854,7 +1033,7 @@ mutual
         exact ifPush_ok ρ N init c thn els body e cur fin hf' ho ⟨hb1, hb2, hb3'⟩ hee h
     | .simple _, _, _, _, _, _, _, _, h => by simp [rwIfS] at h
     | .block _, _, _, _, _, _, _, _, h => by simp [rwIfS] at h
-    | .switch _ _ _, _, _, _, _, hf, _, _, _ => by simp [fragS] at hf
+    | .switch _ _ _, _, _, _, _, _, _, _, h => by simp [rwIfS] at h
     | .for_ _ _ _ _, _, _, _, _, _, _, _, h => by simp [rwIfS] at h
     | .brk, _, _, _, _, _, _, _, h => by simp [rwIfS] at h
     | .cont, _, _, _, _, _, _, _, h => by simp [rwIfS] at h
